@@ -1,12 +1,29 @@
 /-
 C02 — unused_variable never flags a variable that is read.
-Full statement needs the resolution equivalence of C01 (pending, see Props/C01.lean); proved here
-for all scope tables: what the lint reports given the tables.  The documented `observes: write`
+Proved here: `C02_used_iff` (all chunks) — a declaration has a read recorded by the scope-stack machine
+exactly when Lua's scoping rules bind some identifier occurrence in an expression position to it (a
+corollary of `C01_resolution`), so "no recorded read" is "never read"; and, for all scope tables, what
+the lint reports given the tables (`C02_lint_sound`, over the full ScopeVisitor model).  The documented `observes: write`
 analysis is the one place where the property's first sentence is false by design (recorded finding).
 -/
 import Selene.Scope.Lints
+import Selene.Props.C01
 namespace Selene.Props.C02
 open Selene.Scope Selene.Lua
+
+/-- **C02 (read ⇔ used).** For every chunk and declaration token `d`: the scope-stack machine records
+some read that resolves to `d` iff the Lua resolver binds some identifier occurrence in an expression
+position to `d`.  Hence a variable with no recorded read is one the script never reads, and a variable
+the script reads always has a recorded read. -/
+theorem C02_used_iff (b : Block) (d : Nat) :
+    (∃ t, (t, some d) ∈ (Core.analyse b).answers) ↔
+      ∃ oc ∈ (Spec.resolve b).occs, SpecProof.counted oc = true ∧ oc.binding.map (·.1) = some d := by
+  constructor
+  · rintro ⟨t, h⟩
+    obtain ⟨oc, h1, h2, _, h4⟩ := (C01.C01_resolution_mem b t (some d)).mp h
+    exact ⟨oc, h1, h2, h4⟩
+  · rintro ⟨oc, h1, h2, h3⟩
+    exact ⟨oc.tok, (C01.C01_resolution_mem b oc.tok (some d)).mpr ⟨oc, h1, h2, rfl, h3⟩⟩
 
 def analyzedOf (σ : St) (argObserves : List String → Nat → Option Bool) (v : Variable) : List Analyzed :=
   v.references.filterMap fun id => (σ.refs[id]?).map (analyzeRef σ argObserves v)
